@@ -159,6 +159,23 @@ def fold(e, env=None):
             return env(text)
         except NotConst:
             raise NotConst("attribute %s" % text)
+    if isinstance(e, (ast.ListComp, ast.GeneratorExp, ast.SetComp)):
+        if len(e.generators) != 1:
+            raise NotConst("nested comprehension")
+        g = e.generators[0]
+        seq = fold(g.iter, env)
+        out = []
+        for item in seq:
+            bind = {}
+            _bind_target(g.target, item, bind)
+
+            def env2(name, bind=bind):
+                if name in bind:
+                    return bind[name]
+                return env(name)
+            if all(fold(c, env2) for c in g.ifs):
+                out.append(fold(e.elt, env2))
+        return set(out) if isinstance(e, ast.SetComp) else out
     if isinstance(e, ast.JoinedStr):
         out = ""
         for v in e.values:
@@ -219,6 +236,19 @@ def fold(e, env=None):
                 return recv.get(*args)
         raise NotConst("call %s" % ftxt)
     raise NotConst(type(e).__name__)
+
+
+def _bind_target(t, value, bind):
+    if isinstance(t, ast.Name):
+        bind[t.id] = value
+    elif isinstance(t, (ast.Tuple, ast.List)):
+        vals = list(value)
+        if len(vals) != len(t.elts):
+            raise NotConst("unpack")
+        for tt, vv in zip(t.elts, vals):
+            _bind_target(tt, vv, bind)
+    else:
+        raise NotConst("target")
 
 
 def _hashable(v):
